@@ -267,6 +267,30 @@ func c16Main(args []string) error {
 					coords = append(coords, c16Coord{Base: bi, GE: true, Off: off, Mask: []byte{v ^ (v >> 1)}})
 				}
 			}
+			// the return-wire ids at the end of the garbler's stream (OpReturn): an id turned into the id of a
+			// neighbouring result wire makes the evaluator return a valid label of ANOTHER result position
+			if evs, err := parseStreamWire(sr, 0); err == nil {
+				nret := 0
+				reslen := 0
+				for _, e := range evs {
+					if e.Ev == "ret" {
+						nret = len(e.IDs)
+					}
+					if e.Ev == "res" {
+						reslen = e.Len
+					}
+				}
+				idsEnd := len(sr.g2e) - (4 + reslen) // the result data (length prefix + bytes) follows the ids
+				for k := 0; k < nret; k++ {
+					off := idsEnd - 4*(nret-k) + 3 // low byte of the k-th id
+					if off < 0 {
+						continue
+					}
+					for _, m := range []byte{0x01, 0x02, 0x03} {
+						coords = append(coords, c16Coord{Base: bi, GE: true, Off: off, Mask: []byte{m}})
+					}
+				}
+			}
 			for off := sr.otE.posEnd; off < sr.otE.posEnd+12 && off < len(sr.e2g); off++ {
 				v := sr.e2g[off]
 				coords = append(coords, c16Coord{Base: bi, GE: false, Off: off, Mask: []byte{0x01}})
